@@ -257,6 +257,8 @@ H3Index vf_rand_cell(vf_rng *r, int res);
 int vf_special_seeds(int res, int nper, H3Index *out, int cap);
 /* cells on / 1e-6..1e-3 rad beside the quarter points and midpoints of the 30 icosahedron edges (3990 seeds) */
 int vf_edge_offset_seeds(int res, H3Index *out, int cap);
+/* 3*30*nper cells on / beside the 30 icosahedron edges at seed-dependent positions (see vf_kit.c) */
+int vf_edge_walk_cells(int res, int nper, vf_rng *r, H3Index *out, int cap);
 /* hostile index generator */
 uint64_t vf_hostile_index(vf_rng *r);
 int vf_hostile_int(vf_rng *r);
